@@ -220,8 +220,11 @@ Definition legal_entry (p : option str) (u : str) : Prop :=
 Record minv (u0 : option str) (m : nsmap) : Prop := {
   mi_uniq : NoDup (map fst m);
   mi_legal : forall p u, In (p, u) m -> legal_entry p u;
-  mi_default_alone : forall u p, u <> [] -> nm_get m None = Some u -> nm_get m p = Some u -> p = None;
-  mi_default_user : forall u, nm_get m None = Some u -> u = [] \/ u0 = Some u
+  (* a prefixed binding of the default namespace comes after the default entry: it was generated *)
+  mi_default_first : forall u l1 p l2, u <> [] -> nm_get m None = Some u ->
+                                       m = l1 ++ (Some p, u) :: l2 -> In None (map fst l1);
+  mi_default_user : forall u, nm_get m None = Some u -> u = [] \/ u0 = Some u;
+  mi_has_default : forall u, u0 = Some u -> nm_get m None <> None
 }.
 
 (* no binding is lost or changed *)
@@ -232,7 +235,7 @@ Lemma ext_trans a b c : ext a b -> ext b c -> ext a c.
 Proof. intros H1 H2 p u H. apply H2, H1, H. Qed.
 
 Lemma minv_In_get u0 m p u : minv u0 m -> In (p, u) m -> nm_get m p = Some u.
-Proof. intros [H _ _ _]. apply In_nm_get, H. Qed.
+Proof. intros [H _ _ _ _]. apply In_nm_get, H. Qed.
 
 (* adding a binding under a key that is not present *)
 Lemma nm_set_fresh_get m p u p' u' :
@@ -290,8 +293,14 @@ Proof.
   rewrite !map_length, seq_length in Hl. lia.
 Qed.
 
+Lemma nm_set_append m p u : nm_get m p = None -> nm_set m p u = m ++ [(p, u)].
+Proof.
+  induction m as [|[p' u'] m IH]; cbn; [reflexivity|].
+  destruct (ostr_eqb p p'); [discriminate|]. intros H. rewrite (IH H). reflexivity.
+Qed.
+
 Lemma generate_prefix_ok u0 m u :
-  minv u0 m -> uri_ok u = true -> prefix_exists u m = false ->
+  minv u0 m -> uri_ok u = true -> (forall q, nm_get m (Some q) <> Some u) ->
   let '(p, m') := generate_prefix u m in
   minv u0 m' /\ ext m m' /\ nm_get m' (Some p) = Some u /\ nm_get m (Some p) = None.
 Proof.
@@ -329,8 +338,7 @@ Proof.
           + rewrite E, str_eqb_refl in Hx. apply str_eqb_eq. exact Hx. }
       destruct (nm_get m (Some sp)) as [ux|] eqn:G.
       + destruct (str_eqb_spec ux u) as [E|E].
-        * subst ux. exfalso. apply nm_get_In in G.
-          assert (prefix_exists u m = true) by (apply prefix_exists_iff; eauto). congruence.
+        * subst ux. exfalso. exact (Hne sp G).
         * split; [exact F1|split; [exact F2|split; [exact F3|]]]. split; [intros E2; contradiction|].
           (* u = ns_xml would make sp = xml, a key bound to another namespace: not legal *)
           intros E2. exfalso. destruct Hsp as [_ [_ Hxml]]. apply Hxml in E2. subst sp.
@@ -349,17 +357,17 @@ Proof.
   - intros p' x Hin. apply nm_set_In_fresh in Hin; [|exact Habs]. destruct Hin as [Hin|Hin].
     + exact (mi_legal _ _ Hinv _ _ Hin).
     + inversion Hin; subst. cbn. repeat split; try assumption; apply Hxml.
-  - intros x p' Hx Hd Hg.
+  - intros x l1 q l2 Hx Hd Hsplit.
     rewrite nm_get_set_other in Hd by discriminate.
-    destruct (ostr_eqb p' (Some p)) eqn:E.
-    + apply ostr_eqb_eq in E. subst p'. rewrite nm_get_set_same in Hg. inversion Hg; subst x.
-      exfalso. apply nm_get_In in Hd.
-      assert (prefix_exists u m = true) by (apply prefix_exists_iff; eauto). congruence.
-    + rewrite nm_get_set_other in Hg.
-      * exact (mi_default_alone _ _ Hinv _ _ Hx Hd Hg).
-      * intros ->. rewrite ostr_eqb_refl in E. discriminate.
+    rewrite (nm_set_append m (Some p) u Habs) in Hsplit.
+    (* either the split lies inside the old map, or it is the appended entry *)
+    destruct l2 as [|y l2'] using rev_ind.
+    + apply app_inj_tail in Hsplit as [Hm _]. subst l1. exact (nm_get_Some_In_keys _ _ _ Hd).
+    + clear IHl2'. rewrite app_comm_cons, app_assoc in Hsplit. apply app_inj_tail in Hsplit as [Hm _].
+      exact (mi_default_first _ _ Hinv x l1 q l2' Hx Hd Hm).
   - intros x Hd. rewrite nm_get_set_other in Hd by discriminate.
     exact (mi_default_user _ _ Hinv _ Hd).
+  - intros x Hx. rewrite nm_get_set_other by discriminate. exact (mi_has_default _ _ Hinv x Hx).
 Qed.
 
 (* add_namespace *)
@@ -373,7 +381,10 @@ Proof.
   - split; [exact Hinv|split; [apply ext_refl|]]. intros u H; inversion H; subst. tauto.
   - set (uu := c :: u) in *. destruct (prefix_exists uu m) eqn:E.
     + split; [exact Hinv|split; [apply ext_refl|]]. intros x H _; inversion H; subst. exact E.
-    + pose proof (generate_prefix_ok u0 m uu Hinv Hu E) as H.
+    + assert (Hno : forall q, nm_get m (Some q) <> Some uu).
+      { intros q G. apply nm_get_In in G.
+        assert (prefix_exists uu m = true) by (apply prefix_exists_iff; eauto). congruence. }
+      pose proof (generate_prefix_ok u0 m uu Hinv Hu Hno) as H.
       destruct (generate_prefix uu m) as [p m']. destruct H as [H1 [H2 [H3 _]]]. cbn [snd].
       split; [exact H1|split; [exact H2|]]. intros x Hx _; inversion Hx; subst.
       apply prefix_exists_iff. exists (Some p). apply nm_get_In, H3.
@@ -391,7 +402,10 @@ Proof.
   - split; [exact Hinv|split; [apply ext_refl|]].
     apply find_prefix_Some in E. exact (minv_In_get _ _ _ _ Hinv E).
   - apply find_prefix_None in E.
-    pose proof (generate_prefix_ok u0 m u Hinv Hu E) as H.
+    assert (Hno : forall q, nm_get m (Some q) <> Some u).
+    { intros q G. apply nm_get_In in G.
+      assert (prefix_exists u m = true) by (apply prefix_exists_iff; eauto). congruence. }
+    pose proof (generate_prefix_ok u0 m u Hinv Hu Hno) as H.
     destruct (generate_prefix u m) as [p m']. destruct H as [H1 [H2 [H3 _]]].
     split; [exact H1|split; [exact H2|exact H3]].
 Qed.
@@ -414,8 +428,9 @@ Proof.
       * rewrite nm_get_set_other in Hg by discriminate. apply nm_get_In in Hg.
         exact (mi_legal _ _ Hinv _ _ Hg).
       * rewrite nm_get_set_same in Hg. inversion Hg; subst. left. reflexivity.
-    + intros u p Hu Hd _. rewrite nm_get_set_same in Hd. inversion Hd; subst. contradiction.
+    + intros u l1 p l2 Hu Hd _. rewrite nm_get_set_same in Hd. inversion Hd; subst. contradiction.
     + intros u Hd. rewrite nm_get_set_same in Hd. inversion Hd; subst. left. reflexivity.
+    + intros u _. rewrite nm_get_set_same. discriminate.
   - intros p u Hp Hg. rewrite nm_get_set_other by exact Hp. exact Hg.
 Qed.
 
@@ -518,6 +533,43 @@ Proof.
       * intros ->. rewrite str_eqb_refl in Hnxml. discriminate.
       * intros ->. rewrite str_eqb_refl in Hx. discriminate.
     + right. split; [exact Hu|]. intros ->. rewrite str_eqb_refl in Hx. discriminate.
-  - intros u p Hu Hd Hg. exact (user_default_alone user u p Hu Hd Hg Hleg).
+  - intros u l1 p l2 Hu Hd Hsplit. exfalso.
+    assert (Hg : nm_get m (Some p) = Some u).
+    { apply In_nm_get; [exact Hnd|]. rewrite Hsplit. apply in_or_app. right. left. reflexivity. }
+    pose proof (user_default_alone user u (Some p) Hu Hd Hg Hleg) as H. discriminate.
   - intros u Hd. right. unfold user_default. fold m. exact Hd.
+  - intros u Hu. unfold user_default in Hu. fold m in Hu. rewrite Hu. discriminate.
+Qed.
+
+(* add_namespace(uri, prefixed=True) *)
+Lemma prefixed_exists_iff u m : prefixed_exists u m = true <-> exists p, p <> [] /\ In (Some p, u) m.
+Proof.
+  unfold prefixed_exists. rewrite existsb_exists. split.
+  - intros [[p u'] [Hin He]]. cbn [fst snd] in He. apply andb_true_iff in He as [Hp He].
+    apply str_eqb_eq in He. subst u'. destruct p as [[|x p]|]; try discriminate.
+    exists (x :: p). split; [discriminate|exact Hin].
+  - intros [p [Hp Hin]]. exists (Some p, u). split; [exact Hin|]. cbn [fst snd].
+    rewrite str_eqb_refl, andb_true_r. destruct p; [contradiction|reflexivity].
+Qed.
+
+Lemma add_namespace_attr_ok u0 m (ou : option str) :
+  minv u0 m -> ouri_ok ou = true ->
+  minv u0 (add_namespace_attr ou m) /\ ext m (add_namespace_attr ou m)
+  /\ (forall u, ou = Some u -> u <> [] -> exists p, nm_get (add_namespace_attr ou m) (Some p) = Some u).
+Proof.
+  intros Hinv Hu. unfold add_namespace_attr.
+  destruct ou as [[|c u]|].
+  - split; [exact Hinv|split; [apply ext_refl|]]. intros u H; inversion H; subst. tauto.
+  - set (uu := c :: u) in *. destruct (prefixed_exists uu m) eqn:E.
+    + split; [exact Hinv|split; [apply ext_refl|]]. intros x H _; inversion H; subst.
+      apply prefixed_exists_iff in E as [p [_ Hin]]. exists p. exact (minv_In_get _ _ _ _ Hinv Hin).
+    + assert (Hno : forall q, nm_get m (Some q) <> Some uu).
+      { intros q G. pose proof (mi_legal _ _ Hinv _ _ (nm_get_In _ _ _ G)) as Hl. cbn in Hl.
+        destruct Hl as [Hnc _].
+        assert (prefixed_exists uu m = true); [|congruence].
+        apply prefixed_exists_iff. exists q. split; [intros ->; discriminate|apply nm_get_In, G]. }
+      pose proof (generate_prefix_ok u0 m uu Hinv Hu Hno) as H.
+      destruct (generate_prefix uu m) as [p m']. destruct H as [H1 [H2 [H3 _]]]. cbn [snd].
+      split; [exact H1|split; [exact H2|]]. intros x Hx _; inversion Hx; subst. exists p. exact H3.
+  - split; [exact Hinv|split; [apply ext_refl|]]. intros u H; discriminate.
 Qed.
